@@ -319,6 +319,10 @@ func (s *Server) blobUploadMount(repoSrcStr, repoTgtStr, digStr string, w http.R
 	if err != nil {
 		return err
 	}
+	if !rePath.MatchString(repoSrcStr) {
+		// the source comes from the query string, it has not been checked by the router
+		return fmt.Errorf("invalid source repository name: %s", repoSrcStr)
+	}
 	repoTgt, err := s.store.RepoGet(r.Context(), repoTgtStr)
 	if err != nil {
 		return err
